@@ -236,7 +236,7 @@ func checkC02(c *Ctx) {
 			r.Ok("C02.votes-writers", fname(f), p.Pos(f.Pos()), "role vote")
 		case isTally:
 			r.Ok("C02.votes-writers", fname(f), p.Pos(f.Pos()), "role tally/apply")
-		case isRoot(f, roots.InitGen):
+		case c.isGenesisImport(f):
 			r.Ok("C02.votes-writers", fname(f), p.Pos(f.Pos()), "role genesis import")
 		default:
 			r.Bad("C02.votes-writers", fname(f), p.Pos(f.Pos()), "writes vote records but is neither the vote function, the tally function nor InitGenesis")
@@ -423,19 +423,29 @@ func (c *Ctx) checkQuorumGuard(rule string, reach map[*ssa.Function]bool, isProc
 			in := site.(ssa.Instruction)
 			found++
 			var gte *ssa.Call
-			atom := ana.AtomCallBool(func(call *ssa.Call, d ana.CalleeDesc) bool {
-				if d.Recv != "Int" || (d.Name != "GTE" && d.Name != "GT") || len(call.Call.Args) != 2 {
-					return false
+			var powV, reqV ssa.Value
+			isPow := func(v ssa.Value) bool {
+				l := p.Leaves(v, ana.PVOpt{})
+				return l.HasCall("StakingKeeper.GetLastValidatorPower") && !l.HasCall("StakingKeeper.GetLastTotalPower")
+			}
+			isReq := func(v ssa.Value) bool {
+				l := p.Leaves(v, ana.PVOpt{})
+				return l.HasCall("StakingKeeper.GetLastTotalPower") && !l.HasCall("StakingKeeper.GetLastValidatorPower")
+			}
+			atom := ana.AtomMethodCmp(func(op token.Token, x, y ssa.Value, call *ssa.Call) (bool, bool) {
+				if d, _ := ana.Describe(&call.Call); d.Recv != "Int" {
+					return false, false
 				}
-				lp := p.Leaves(call.Call.Args[0], ana.PVOpt{})
-				lr := p.Leaves(call.Call.Args[1], ana.PVOpt{})
-				if lp.HasCall("StakingKeeper.GetLastValidatorPower") && !lp.HasCall("StakingKeeper.GetLastTotalPower") &&
-					lr.HasCall("StakingKeeper.GetLastTotalPower") && !lr.HasCall("StakingKeeper.GetLastValidatorPower") {
+				if ana.AtLeast(op, x, y, isPow, isReq) {
 					gte = call
-					return true
+					powV, reqV = x, y
+					if isReq(x) {
+						powV, reqV = y, x
+					}
+					return true, true
 				}
-				return false
-			}, true)
+				return false, false
+			})
 			ok, chain := p.GuardedInter(in, 3, atom)
 			if !ok {
 				r.Bad(rule, "guard:"+fname(f), c.pos(in), "the event/attestation is applied on a path not guarded by votePower >= required (power from GetLastValidatorPower, requirement from GetLastTotalPower)", chain...)
@@ -450,18 +460,18 @@ func (c *Ctx) checkQuorumGuard(rule string, reach map[*ssa.Function]bool, isProc
 				if e.In != f || e.Kind != "store" || !e.Store.IsWrite() {
 					continue
 				}
-				okW := ana.Guarded(e.At, atom)
+				okW := c.guardedUp(e.At, atom)
 				r.Check(okW, rule, "write:"+e.Prefix+":"+fname(f), c.pos(e.At), "state write ("+e.Prefix+") guarded by the quorum test",
 					"the apply function writes "+e.Prefix+" on a path that has not passed the quorum test: an event that lacks 66% of the power changes hub state")
 			}
 			// threshold: the normal form Int.Quo(Int.Mul(NewInt(A),total),NewInt(B)) – multiply first, then divide
-			ex := p.Expr(gte.Call.Args[1], 3)
+			ex := p.Expr(reqV, 3)
 			a, b, okT := parseThreshold(ex)
 			okT = okT && b > 0 && a*wantB >= wantA*b && a <= b
 			r.Check(okT, rule, "threshold:"+fname(f), c.pos(gte), sprintf("required = %s with A/B = %d/%d >= %d/%d", ex, a, b, wantA, wantB),
 				sprintf("the required power is not (A*GetLastTotalPower)/B with A/B >= %d/%d, multiplied before dividing: %s", wantA, wantB, ex))
 			// accumulation: phi(0, phi.Add(NewInt(GetLastValidatorPower(vote)))) over the record's votes
-			okAcc, why := c.votePowerAccumulates(gte.Call.Args[0], votesField)
+			okAcc, why := c.votePowerAccumulates(powV, votesField)
 			r.Check(okAcc, rule, "accumulate:"+fname(f), c.pos(gte), "votePower starts at 0 and adds exactly one GetLastValidatorPower(vote) per iteration over the record's votes", why)
 		})
 	}
